@@ -149,6 +149,10 @@ pub struct Scenario {
     /// cancellation does not reach it, it keeps the pipe open and still writes its bytes
     #[serde(default)]
     pub late_detached: bool,
+    /// a cancelled task gets a second cancellation request this many ms after the first (it may
+    /// arrive while the task is being torn down, or after its terminal status)
+    #[serde(default)]
+    pub cancel_again_after_ms: Option<u64>,
 }
 
 pub struct C17;
@@ -302,7 +306,9 @@ pub fn generate(run_seed: u64, tier: Tier) -> Scenario {
             }
         }
     }
-    Scenario { mode, max_bytes, artifact_max_bytes, out, err, segs, exit_code: *rng.pick(&[0, 0, 0, 1, 3, 127]), page_sizes, slow_disk_ms: *rng.pick(&[0u64, 0, 5, 25, 60]), late, late_detached }
+    let mut arng = Rng::derive(run_seed, "c17:cancel-again");
+    let cancel_again_after_ms = if matches!(mode, Mode::Task { cancel_after_ms: Some(_), .. }) && arng.chance(1, 2) { Some(*arng.pick(&[0u64, 1, 3, 10, 40, 200])) } else { None };
+    Scenario { mode, max_bytes, artifact_max_bytes, out, err, segs, exit_code: *rng.pick(&[0, 0, 0, 1, 3, 127]), page_sizes, slow_disk_ms: *rng.pick(&[0u64, 0, 5, 25, 60]), late, late_detached, cancel_again_after_ms }
 }
 
 // ---------------------------------------------------------------------------------------------
@@ -602,6 +608,8 @@ fn run_task(sc: &Scenario, env: &Env, stats: &mut RunStats) -> Result<Option<Vio
     let id = v["task_id"].as_str().unwrap_or("").to_string();
     let t0 = Instant::now();
     let mut cancelled = false;
+    let mut cancelled_at: Option<Instant> = None;
+    let mut cancelled_again = false;
     let log_path = engine.data.join("events.jsonl");
     let terminal = |f: &crate::model::Frame| f.ty == "tool_task_status" && matches!(f.s("status"), Some("exited") | Some("failed") | Some("cancelled"));
     loop {
@@ -612,7 +620,15 @@ fn run_task(sc: &Scenario, env: &Env, stats: &mut RunStats) -> Result<Option<Vio
                     return Err(format!("cancel: {st}"));
                 }
                 cancelled = true;
+                cancelled_at = Some(Instant::now());
                 stats.bump("fault:task_cancelled", 1);
+            }
+        }
+        if let (Some(again), Some(at), false) = (sc.cancel_again_after_ms, cancelled_at, cancelled_again) {
+            if at.elapsed().as_millis() as u64 >= again {
+                let _ = engine.call("POST", &format!("/tasks/{id}/cancel"), Some(json!({"reason": "sim cancel, once more"})))?;
+                cancelled_again = true;
+                stats.bump("fault:task_cancelled_a_second_time", 1);
             }
         }
         let done = crate::model::parse_truth_file(&log_path).map(|t| t.frames.iter().any(|f| f.stream_id == id && terminal(f))).unwrap_or(false);
@@ -640,6 +656,10 @@ fn run_task(sc: &Scenario, env: &Env, stats: &mut RunStats) -> Result<Option<Vio
         let lid = term.v.pointer(&format!("/artifacts/logs/{name}/id")).and_then(|x| x.as_str()).unwrap_or("").to_string();
         let bytes = if lid.is_empty() { None } else { std::fs::read(blobs.join(&lid)).ok() };
         stored_now.push((name.to_string(), bytes, lid));
+    }
+    if let (Some(_), Some(_), false) = (sc.cancel_again_after_ms, cancelled_at, cancelled_again) {
+        let _ = engine.call("POST", &format!("/tasks/{id}/cancel"), Some(json!({"reason": "sim cancel, after the end"})))?;
+        stats.bump("fault:task_cancelled_again_after_its_terminal_status", 1);
     }
     engine.settle(30);
     if let Some((late_ms, _)) = sc.late {
